@@ -18,6 +18,7 @@ PROGRAMS = {
     "putdel": {1: [("put", "f", "c1", "c2")], 2: [("delete", "f", "c1"), ("get", "f")]},
     "badput": {1: [("badput", "f", "c1", "c2")], 2: [("put", "f", "c1", "c3"), ("get", "f")]},
     "create": {1: [("put", "g", None, "c2")], 2: [("put", "g", None, "c2"), ("delete", "g", "c2")]},
+    "badsame": {1: [("badput", "f", "c1", "c2")], 2: [("put", "f", "c1", "c2"), ("get", "f")]},
 }
 # programs explored by the controller's own search only
 EXTRA = {
